@@ -40,6 +40,13 @@ CHECKS = {
  'C07': dict(cat='fault_enumeration', technique='exhaustive single-fault enumeration on the token sequence of a seed corpus (delete, duplicate, swap, truncate, insert stray token at every position), token accounting on accepted inputs, output-directory diff and horizon on rejected ones, for the parser, both generators and both scripts',
              text='Every single-token corruption of 6 seed modules (every deletion, duplication, adjacent swap, truncation at token boundaries and inside tokens, insertion of 12 (18) stray tokens at every gap; thorough: two-fault combinations) plus 6 validation-error inputs: an accepted input must have every token accounted for in the parse tree; a rejected one must raise within 60 s, and PybindWrapper.wrap / wrap_submodule, MatlabWrapper.wrap and both scripts (in-process and as subprocesses) must leave a pre-populated output area byte-for-byte unchanged and create nothing.',
              note='Token accounting is by multiset (class members are stored per kind); file-writing drivers are run on every 12th (4th) fault.', ref='2/C07'),
+
+ 'C10': dict(cat='exploration', technique='bounded-exhaustive enumeration of (module, ignore list, serialization); generated file tree, parsed classdef structure and MEX preamble compared with a reference toolbox model',
+             text='11 entity kinds in 4 namespace scopes (depth 0..3), alone x ignore lists x serialization, in all ordered pairs (also x ignore lists) and (thorough) all triples; the generated tree must be exactly the reference toolbox: one classdef per non-ignored instantiation in its +package path, one file per function name, one enumeration classdef per enum (class-scoped under +Class), one MEX source; each classdef parsed (base/handle, pointer property, one constructor with the expected arities, delete, one method per distinct name, one static per distinct name, get/set per property), enumerators 0..n-1 in order; one collector and one clean-up block per class, one RTTI entry per virtual class.',
+             note='Reference toolbox model (vf/refml.py) and mini-MATLAB parser trusted.', ref='2/C10'),
+ 'C15': dict(cat='exploration', technique='exhaustive differential exploration over (module, target class): ignore vs delete vs unchanged, for both generators, block-wise comparison with id normalisation',
+             text='For every module of 1..2 (3) entity kinds in 4 namespace scopes and every class of 6 target kinds at every scope (global, depth 1..3; one instantiation for templated classes): the output with the class ignored must equal byte for byte the output with its declaration deleted, and every other entity block (pybind registration; MATLAB file, id-normalised MEX routines, collector, clean-up, RTTI entry) must equal its block in the unchanged output.',
+             note='Differential oracle, no expected values; ignore entries spelled as each generator documents.', ref='2/C15'),
 }
 NOT_YET = 'check not built yet in this session (see DESIGN.md for the planned exhaustive exploration)'
 
